@@ -26,7 +26,7 @@ def units(tier, seed):
         for op1 in OPS:
             us.append(('trees', k, op1))
     us.append(('crosstrees',))
-    nrand = 16 if tier == 'quick' else 64
+    nrand = 16 if tier == 'quick' else 640
     for i in range(nrand):
         us.append(('random', i))
     us.append(('cross',))
